@@ -471,6 +471,10 @@ namespace bxdecay0 {
             = (_pimpl_->tab_prob.e_max[0] - _pimpl_->tab_prob.e_min[0]) / (_pimpl_->tab_prob.nsamples - 1);
         for (int i = 0; i < (int)_pimpl_->tab_prob.nsamples; i++) {
           double ei = _pimpl_->tab_prob.e_min[0] + i * _pimpl_->tab_prob.energy_step;
+          if (i > 0 and ei <= _pimpl_->tab_prob.energies.back()) {
+            // An E range too narrow for its number of samples (the interpolator needs a strictly increasing grid)
+            throw std::logic_error("bxdecay0::dbd_gA::_load_tabulated_pdf_: Energy samples are not strictly increasing!");
+          }
           _pimpl_->tab_prob.energies.push_back(ei);
           _pimpl_->tab_prob.e_samples[0].push_back(ei);
           _pimpl_->tab_prob.e_samples[1].push_back(ei);
@@ -700,6 +704,9 @@ namespace bxdecay0 {
             = (_pimpl_->tab_prob.e_max[0] - _pimpl_->tab_prob.e_min[0]) / (_pimpl_->tab_prob.nsamples - 1);
         for (int i = 0; i < (int)_pimpl_->tab_prob.nsamples; i++) {
           double ei = _pimpl_->tab_prob.e_min[0] + i * _pimpl_->tab_prob.energy_step;
+          if (i > 0 and ei <= _pimpl_->tab_prob.energies.back()) {
+            throw std::logic_error("bxdecay0::dbd_gA::_load_tabulated_cdf_opt_: Energy samples are not strictly increasing!");
+          }
           _pimpl_->tab_prob.energies.push_back(ei);
         }
 
